@@ -97,7 +97,25 @@ func attributeName(name string) string {
 	if len(name) > attributeNameLength {
 		name = name[:attributeNameLength]
 	}
-	return strings.ToLower(name)
+	// (TrimSpace: the stored name is read back without blanks at its ends.)
+	return strings.ToLower(strings.TrimSpace(name))
+}
+
+// attributeIndex returns the index of the attribute that a struct field
+// name, a tag or a requested name refers to.
+func (r *Decoder) attributeIndex(name string) (int, bool) {
+	if name == "" {
+		return 0, false
+	}
+	// A name that was written as it is (a struct field name, a name given to
+	// NewEncoderFromFields) was cut by the file.
+	if j, ok := r.fieldIndices[attributeName(name)]; ok {
+		return j, true
+	}
+	// NewEncoder writes a tag in lower case: folded first, then cut, which is
+	// not the same when folding changes the length of a character.
+	j, ok := r.fieldIndices[attributeName(strings.ToLower(name))]
+	return j, ok
 }
 
 // DecodeRow decodes a shapefile row into a struct. The input
@@ -126,8 +144,6 @@ func (r *Decoder) DecodeRow(rec interface{}) bool {
 	for i := 0; i < v.NumField(); i++ {
 		fType := t.Field(i)
 		fValue := v.Field(i)
-		fName := attributeName(fType.Name)
-		tagName := attributeName(fType.Tag.Get(tag))
 
 		// First, check if this is a geometry field
 		if fType.Type.Implements(gI) {
@@ -144,11 +160,11 @@ func (r *Decoder) DecodeRow(rec interface{}) bool {
 			fValue.Set(reflect.ValueOf(g))
 
 			// Then, check the tag name
-		} else if j, ok := r.fieldIndices[tagName]; ok {
+		} else if j, ok := r.attributeIndex(fType.Tag.Get(tag)); ok {
 			r.setFieldToAttribute(fValue, fType.Type, j)
 
 			// Finally, check the struct field name
-		} else if j, ok := r.fieldIndices[fName]; ok {
+		} else if j, ok := r.attributeIndex(fType.Name); ok {
 			r.setFieldToAttribute(fValue, fType.Type, j)
 		}
 	}
@@ -187,7 +203,7 @@ func (r *Decoder) DecodeRowFields(fieldNames ...string) (
 
 	// Get fields
 	for _, name := range fieldNames {
-		if i, ok := r.fieldIndices[attributeName(name)]; ok {
+		if i, ok := r.attributeIndex(name); ok {
 			f := r.ReadAttribute(r.row, i)
 			if r.err != nil {
 				return
